@@ -561,6 +561,40 @@ def r13_path_key(c, facts):
         else:
             c.ok(R, inst)
     c.floor(R, 'renderers of the path-item key', n, 2)
+    # ... and the key is that rendering, unchanged: what is done to the key alone (normalising `..`, trimming, folding case)
+    # is not done to the path parameters, which uri_params derives from the same URI
+    ap = c.anchor(R, 'oal_openapi::Builder::all_paths')
+    k = 0
+    for g in [facts.normalised(ap)] + [facts.closure_flat(x)[0] for x in facts.closures_of(ap)]:
+        if not g.mir:
+            continue
+        gidx = MF.defs_index(g)
+        keys = []
+        for b, blk in g.blocks():
+            for st in blk['stmts']:
+                if st['s'] == 'assign' and st['rv']['r'] == 'aggr' and st['rv'].get('ak') == 'tuple' and len(st['rv']['ops']) == 2 \
+                        and 'String' in st['rv']['ops'][0].get('ty', '') and 'PathItem' in st['rv']['ops'][1].get('ty', '') and 'l' in st['rv']['ops'][0]:
+                    keys.append(st['rv']['ops'][0])
+        for b, t in P.call_blocks(g, 'IndexMap::insert', 'IndexMap::insert_full'):
+            if len(t['args']) > 2 and 'String' in t['args'][1].get('ty', '') and 'PathItem' in t['args'][2].get('ty', '') and 'l' in t['args'][1]:
+                keys.append(t['args'][1])
+        for key in keys:
+            k += 1
+            sl = MF.slice_back(g, key['l'], gidx)
+            makers = []
+            for x, ct, _ in sl['calls']:
+                dty = g.mir['locals'][ct['dest']['l']]['ty'] if isinstance(ct.get('dest'), dict) and 'l' in ct['dest'] else ''
+                if re.search(r'\bString\b|&str|Cow<', dty):
+                    makers.append(P.strip(x).split('::', 1)[-1])
+            odd = sorted(set(m for m in makers if not m.endswith(('Uri::pattern', 'Clone::clone', 'ToString::to_string', 'ToOwned::to_owned', 'Into::into', 'From::from', 'Deref::deref', 'String::as_str', 'AsRef::as_ref'))))
+            inst = {'fn': g.qname, 'key made by': sorted(set(makers))}
+            if not any(m.endswith('Uri::pattern') for m in makers):
+                c.bad(R, 'path-key-not-from-pattern', 'the key of a path item in %s is not the pattern of the relation\'s URI' % g.qname, **inst)
+            elif odd:
+                c.bad(R, 'path-key-transformed:%s' % ','.join(odd), 'all_paths passes the rendered pattern through %s before using it as the key of the path item: the key and the path parameters (derived from the URI as written) no longer describe the same path' % odd, **inst)
+            else:
+                c.ok(R, inst)
+    c.floor(R, 'path-item keys built in all_paths', k, 1)
 
 
 def r5_base_closed(c, facts):
@@ -695,6 +729,7 @@ def run(c, facts):
     c.shared(R11, _c13.r15_write_verbatim, 'C13.R15', facts)
     c.shared(R11, _c13.r1_sole_writer, 'C13.R1', facts)      # ... and nothing of an older, longer document stays behind it
     import c02 as _c02
+    c.run(lambda c: _c02.r25_annotation_scope(c, facts, rule='C03.R14'))      # an operationId written on a relation is not the id of each of its operations
     c.run(lambda c: _c02.r21_annotation_precedence(c, facts, rule='C03.R12'))      # an operationId given at the use of a function is the one emitted
     c.run(r5_base_closed, facts)
     c.run(r13_path_key, facts)
